@@ -41,10 +41,14 @@ type Case struct {
 	Proto string `json:"proto"` // text | binary (COM_STMT_EXECUTE)
 	R     int    `json:"rows"`
 	S     int    `json:"row_bytes"`
+	Last  int    `json:"last_row_bytes,omitempty"` // > 0: the last row has this size instead
 	Note  string `json:"note,omitempty"`
 }
 
 func (c Case) String() string {
+	if c.Last > 0 {
+		return fmt.Sprintf("limit=%d path=%s proto=%s rows=%d row_bytes=%d last_row_bytes=%d", c.Limit, c.Path, c.Proto, c.R, c.S, c.Last)
+	}
 	return fmt.Sprintf("limit=%d path=%s proto=%s rows=%d row_bytes=%d", c.Limit, c.Path, c.Proto, c.R, c.S)
 }
 
@@ -72,6 +76,23 @@ func rowPayload(s int) int {
 	return s + 9
 }
 
+// sizeOf row i of a result of r rows (uniform size s, optional different last row)
+func sizeOf(i, r, s, last int) int {
+	if last > 0 && i == r-1 {
+		return last
+	}
+	return s
+}
+
+// totalPayload of the first n rows
+func totalPayload(n, r, s, last int) int {
+	t := 0
+	for i := 0; i < n; i++ {
+		t += rowPayload(sizeOf(i, r, s, last))
+	}
+	return t
+}
+
 // ---- rig -------------------------------------------------------------------------------
 
 type stmtRec struct {
@@ -95,6 +116,7 @@ type rig struct {
 var (
 	reR    = regexp.MustCompile("(?i)[` ]r`?\\s*=\\s*(\\d+)")
 	reS    = regexp.MustCompile("(?i)[` ]s`?\\s*=\\s*(\\d+)")
+	reB    = regexp.MustCompile("(?i)[` ]b`?\\s*=\\s*(\\d+)")
 	reTag  = regexp.MustCompile("(?i)[` ]tag`?\\s*=\\s*(\\d+)")
 	reFrom = regexp.MustCompile("(?i)\\bfrom\\s+(?:`?\\w+`?\\.)?`?(\\w+)`?")
 )
@@ -116,6 +138,10 @@ func (g *rig) handler(c *fakemysql.ConnInfo, sql string) *fakemysql.Result {
 	tag, _ := strconv.Atoi(mt[1])
 	n, _ := strconv.Atoi(mr[1])
 	size, _ := strconv.Atoi(ms[1])
+	last := 0
+	if mb := reB.FindStringSubmatch(sql); mb != nil {
+		last, _ = strconv.Atoi(mb[1])
+	}
 	rec := stmtRec{table: strings.ToLower(mf[1]), n: n, size: size}
 	rec.seed = seedOf(tag, rec.table)
 	g.mu.Lock()
@@ -123,7 +149,7 @@ func (g *rig) handler(c *fakemysql.ConnInfo, sql string) *fakemysql.Result {
 		g.stmts[tag] = append(g.stmts[tag], rec)
 	}
 	g.mu.Unlock()
-	return &fakemysql.Result{Cols: []string{"v"}, Gen: &fakemysql.Gen{N: n, Size: size, Seed: rec.seed}}
+	return &fakemysql.Result{Cols: []string{"v"}, Gen: &fakemysql.Gen{N: n, Size: size, Seed: rec.seed, LastSize: last}}
 }
 
 func nsName(limit int) string {
@@ -186,7 +212,7 @@ func (g *rig) calibrate() {
 		g.mu.Lock()
 		tag := g.tag + 1
 		g.mu.Unlock()
-		o := g.runStmtKeep(cl, p, "text", 1, 8, true)
+		o := g.runStmtKeep(cl, p, "text", 1, 8, 0, true)
 		cl.Close()
 		g.mu.Lock()
 		recs := g.stmts[tag]
@@ -241,7 +267,7 @@ type outcome struct {
 	multiChunk bool
 }
 
-func sqlFor(path string, r, s, tag int, placeholders bool) (string, []int64) {
+func sqlFor(path string, r, s, last, tag int, placeholders bool) (string, []int64) {
 	var tbl, extra string
 	switch path {
 	case "unsharded":
@@ -254,17 +280,17 @@ func sqlFor(path string, r, s, tag int, placeholders bool) (string, []int64) {
 		tbl = "tt"
 	}
 	if placeholders {
-		return fmt.Sprintf("SELECT v FROM %s WHERE %sr = ? AND s = ? AND tag = ?", tbl, extra), []int64{int64(r), int64(s), int64(tag)}
+		return fmt.Sprintf("SELECT v FROM %s WHERE %sr = ? AND s = ? AND b = ? AND tag = ?", tbl, extra), []int64{int64(r), int64(s), int64(last), int64(tag)}
 	}
-	return fmt.Sprintf("SELECT v FROM %s WHERE %sr = %d AND s = %d AND tag = %d", tbl, extra, r, s, tag), nil
+	return fmt.Sprintf("SELECT v FROM %s WHERE %sr = %d AND s = %d AND b = %d AND tag = %d", tbl, extra, r, s, last, tag), nil
 }
 
 // runStmt sends one statement on cl and classifies the answer.
-func (g *rig) runStmt(cl *e2erig.Client, path, proto string, r, s int) outcome {
-	return g.runStmtKeep(cl, path, proto, r, s, false)
+func (g *rig) runStmt(cl *e2erig.Client, path, proto string, r, s, last int) outcome {
+	return g.runStmtKeep(cl, path, proto, r, s, last, false)
 }
 
-func (g *rig) runStmtKeep(cl *e2erig.Client, path, proto string, r, s int, keep bool) outcome {
+func (g *rig) runStmtKeep(cl *e2erig.Client, path, proto string, r, s, last int, keep bool) outcome {
 	g.mu.Lock()
 	g.tag++
 	tag := g.tag
@@ -289,7 +315,7 @@ func (g *rig) runStmtKeep(cl *e2erig.Client, path, proto string, r, s int, keep 
 	var ri e2erig.ResultInfo
 	var err error
 	if proto == "binary" {
-		q, params := sqlFor(path, r, s, tag, true)
+		q, params := sqlFor(path, r, s, last, tag, true)
 		st, perr, e := cl.Prepare(q)
 		switch {
 		case e != nil:
@@ -300,7 +326,7 @@ func (g *rig) runStmtKeep(cl *e2erig.Client, path, proto string, r, s int, keep 
 			ri, err = cl.Execute(st.ID, params, onRow)
 		}
 	} else {
-		q, _ := sqlFor(path, r, s, tag, false)
+		q, _ := sqlFor(path, r, s, last, tag, false)
 		ri, err = cl.Query(q, onRow)
 	}
 	// what the backends produce for this statement is known a priori: R rows of S bytes per
@@ -315,11 +341,11 @@ func (g *rig) runStmtKeep(cl *e2erig.Client, path, proto string, r, s int, keep 
 	tables := physTables[path]
 	o.nStmts = len(tables)
 	o.maxPer = r
-	o.multiChunk = r*rowPayload(s) > threshold
+	o.multiChunk = totalPayload(r, r, s, last) > threshold
 	for _, t := range tables {
 		seed := seedOf(tag, t)
 		for i := 0; i < r; i++ {
-			o.expected = append(o.expected, fakemysql.RowSum(seed, i, s))
+			o.expected = append(o.expected, fakemysql.RowSum(seed, i, sizeOf(i, r, s, last)))
 		}
 	}
 	sort.Slice(o.expected, func(i, j int) bool { return o.expected[i] < o.expected[j] })
@@ -365,12 +391,12 @@ func limitClass(limit, r int) string {
 	return "above"
 }
 
-func sizeClass(r, s int) string {
-	total := r * rowPayload(s)
+func sizeClass(r, s, last int) string {
+	total := totalPayload(r, r, s, last)
 	switch {
 	case total <= threshold:
 		return "single_chunk"
-	case (r-1)*rowPayload(s) <= threshold:
+	case totalPayload(r-1, r, s, last) <= threshold:
 		return "threshold_crossed_by_last_row"
 	}
 	return "multi_chunk"
@@ -435,7 +461,7 @@ func (g *rig) attempt(c Case) (main outcome, fs []finding) {
 		return cl
 	}
 	cl := dial()
-	main = g.runStmt(cl, c.Path, c.Proto, c.R, c.S)
+	main = g.runStmt(cl, c.Path, c.Proto, c.R, c.S, c.Last)
 	cl.Close()
 	if k := judge(c.Limit, main); k != "" {
 		fs = append(fs, finding{"main", k, main, c.R})
@@ -447,7 +473,7 @@ func (g *rig) attempt(c Case) (main outcome, fs []finding) {
 		pr = 0
 	}
 	cl = dial()
-	po := g.runStmt(cl, c.Path, c.Proto, pr, 8)
+	po := g.runStmt(cl, c.Path, c.Proto, pr, 8, 0)
 	cl.Close()
 	if k := judge(c.Limit, po); k != "" {
 		fs = append(fs, finding{"probe", k, po, pr})
@@ -490,7 +516,7 @@ func runCase(r *ev.Run, g *rig, c Case) (key string) {
 	main, fs := g.attempt(c)
 	if len(fs) > 0 {
 		more := 4
-		if r.Quick() && c.R*c.S > 8*MiB {
+		if r.Quick() && totalPayload(c.R, c.R, c.S, c.Last) > 8*MiB {
 			more = 2
 		}
 		var fresh []finding
@@ -523,7 +549,7 @@ func runCase(r *ev.Run, g *rig, c Case) (key string) {
 				c, f.stage, f.kind, o.class, len(o.got), len(o.expected), o.nStmts, o.maxPer, o.detail),
 			Features: map[string]string{
 				"kind": f.kind, "stage": f.stage, "path": c.Path, "proto": c.Proto,
-				"limit": limitClass(c.Limit, f.rows), "size": sizeClass(c.R, c.S), "client": o.class,
+				"limit": limitClass(c.Limit, f.rows), "size": sizeClass(c.R, c.S, c.Last), "client": o.class,
 			},
 			Case: c,
 		})
@@ -535,7 +561,7 @@ func runCase(r *ev.Run, g *rig, c Case) (key string) {
 	for _, f := range fs {
 		got += "+" + f.stage + ":" + f.kind
 	}
-	return fmt.Sprintf("%s|%s|%s|%s|stmts=%d|%s", c.Path, c.Proto, limitClass(c.Limit, c.R), sizeClass(c.R, c.S), main.nStmts, got)
+	return fmt.Sprintf("%s|%s|%s|%s|stmts=%d|%s", c.Path, c.Proto, limitClass(c.Limit, c.R), sizeClass(c.R, c.S, c.Last), main.nStmts, got)
 }
 
 // ---- universe --------------------------------------------------------------------------
